@@ -707,7 +707,12 @@ impl World {
         if let Some((k, m)) = bad {
             let timeout_related = k.starts_with("unexpected-");
             if !(self.allow_timeouts && timeout_related) {
-                self.violate(&["C04"], k, m);
+                if k == "unexpected-wait-timeout" && self.close_begun {
+                    // "every get() still waiting for a slot ... fails with Closed"
+                    self.violate(&["C04", "C06"], "waiter-timeout-instead-of-closed", format!("{} (the pool was being closed: the waiter must see Closed)", m));
+                } else {
+                    self.violate(&["C04"], k, m);
+                }
             }
         }
         self.gets[gi].outcome = Some(GetOut::Err(desc));
